@@ -70,7 +70,9 @@ func decodeEfaceSlice(buf []byte, l *[]interface{}, elemT reflect.Type, unmarsha
 		if err != nil {
 			return nil, err
 		}
-		if body != nil && elemT != nil {
+		if elemT != nil {
+			// also when the encoding is empty: a marshaler may encode a
+			// value as zero bytes (e.g. a default protobuf message)
 			elem := reflect.New(elemT)
 			err = unmarshal(body, elem.Interface())
 			if err != nil {
